@@ -1,9 +1,250 @@
+import ScenicModel.Gen.RunOrder
+import ScenicModel.Model.SimSpec
 import Driver.Util
-/-! line protocol for the C12 model (stub: replaced when the property's model is built) -/
+/-! line protocol for the C12 model (simulation loop).  One line = one program + schedule;
+    the answer is the termination, the final clock, the trajectory/action-log lengths and the
+    event log.  `Sem` (phase order, flags) is the data regenerated from /repo. -/
 namespace Driver.C12
-open Driver
+open Driver Scenic.SimLoop
 
+abbrev PM := StateT (List String) Option
+
+def tok : PM String := do
+  match (← get) with
+  | [] => failure
+  | t :: ts => set ts; pure t
+
+def nat : PM Nat := do
+  match (← tok).toNat? with
+  | some n => pure n
+  | none => failure
+
+def expect (s : String) : PM Unit := do
+  if (← tok) == s then pure () else failure
+
+def rat : PM Rat := do
+  match parseRat (← tok) with
+  | some q => pure q
+  | none => failure
+
+def many {α} (p : PM α) : Nat → PM (List α)
+  | 0 => pure []
+  | n + 1 => do let x ← p; let xs ← many p n; pure (x :: xs)
+
+def counted {α} (p : PM α) : PM (List α) := do let n ← nat; many p n
+
+structure Env where
+  dt : Rat
+  float : Bool
+
+def ratToFloat (q : Rat) : Float := Float.ofInt q.num / Float.ofNat q.den
+
+def Env.secs (e : Env) (q : Rat) : Nat :=
+  if e.float then secToStepsF (ratToFloat q) (ratToFloat e.dt) else secToStepsQ q e.dt
+
+def cond : PM Cond := do
+  match (← tok) with
+  | "tt" => pure .tt
+  | "ff" => pure .ff
+  | "ge" => return .ge (← nat)
+  | "lt" => return .lt (← nat)
+  | "eq" => return .eq (← nat)
+  | "ne" => return .ne (← nat)
+  | _ => failure
+
+def modifier (e : Env) : PM Mod := do
+  match (← tok) with
+  | "N" => pure .none
+  | "Fs" => return .forT (← nat)
+  | "Fq" => return .forT (e.secs (← rat))
+  | "U" => return .untilC (← nat)
+  | _ => failure
+
+mutual
+partial def stmt (e : Env) : PM Stmt := do
+  match (← tok) with
+  | "L" => return .log (← nat)
+  | "T" => return .take (← nat)
+  | "W" => pure .wait
+  | "X" => pure .term
+  | "Z" => pure .termSim
+  | "D" => do let subs ← counted nat; let m ← modifier e; pure (.doSub subs m)
+  | "R" => do let k ← nat; let b ← block e; pure (.rep k b)
+  | "V" => do let b ← block e; pure (.forever b)
+  | "I" => do let c ← nat; let a ← block e; let b ← block e; pure (.ite c a b)
+  | _ => failure
+partial def blockRest (e : Env) : PM (List Stmt) := do
+  match (← get) with
+  | "]" :: ts => set ts; pure []
+  | _ => do let s ← stmt e; let r ← blockRest e; pure (s :: r)
+partial def block (e : Env) : PM (List Stmt) := do
+  expect "["; blockRest e
+end
+
+def scen (e : Env) : PM ScenCls := do
+  expect "agents"; let agents ← counted nat
+  expect "mons"; let mons ← counted nat
+  expect "compose"
+  let compose ← (do
+    match (← get) with
+    | "-" :: ts => set ts; pure none
+    | _ => return some (← block e))
+  expect "limit"
+  let limit ← (do
+    match (← tok) with
+    | "-" => pure none
+    | "s" => return some (← nat)
+    | "q" => return some (e.secs (← rat))
+    | _ => failure)
+  expect "tw"; let tw ← counted nat
+  expect "ra"; let ra ← nat
+  pure ⟨agents, mons, compose, limit, tw, ra == 1⟩
+
+inductive SMode | id | rev | rot (k : Nat) | swap
+
+def smode : PM SMode := do
+  match (← tok) with
+  | "id" => pure .id
+  | "rev" => pure .rev
+  | "rot" => return .rot (← nat)
+  | "swap" => pure .swap
+  | _ => failure
+
+def SMode.apply (n : Nat) : SMode → List Nat
+  | .id => List.range n
+  | .rev => (List.range n).reverse
+  | .rot k => let k := if n = 0 then 0 else k % n; (List.range n).drop k ++ (List.range n).take k
+  | .swap => match List.range n with
+    | a :: b :: r => b :: a :: r
+    | l => l
+
+structure Job where
+  cf : Nat
+  fuel : Nat
+  prog : Prog
+  modes : List SMode
+
+def job : PM Job := do
+  expect "cf"; let cf ← nat
+  expect "fuel"; let fuel ← nat
+  expect "max"; let maxSteps ← nat
+  expect "dt"; let dt ← rat
+  expect "fm"; let fm ← tok
+  let e : Env := ⟨dt, fm == "f"⟩
+  expect "conds"; let conds ← counted cond
+  expect "behs"; let behs ← counted (block e)
+  expect "mons"; let mons ← counted (block e)
+  expect "scens"; let scens ← counted (scen e)
+  expect "tsw"; let tsw ← counted nat
+  expect "rec"; let ri ← nat; let rn ← nat; let rf ← nat
+  expect "sched"; let modes ← counted smode
+  pure ⟨cf, fuel, ⟨⟨conds, behs⟩, mons, scens, tsw, ri == 1, rn, rf == 1, maxSteps⟩, modes⟩
+
+def showCtx : Ctx → String
+  | .comp => "co" | .mon => "mo" | .beh => "be" | .termWhen => "tw" | .termSim => "ts"
+
+def showEv : Ev → String
+  | .q i => s!"q:{i}"
+  | .c i t => s!"c:{i}:{t}"
+  | .m i j t => s!"m:{i}:{j}:{t}"
+  | .b a t => s!"b:{a}:{t}"
+  | .bstep a => s!"bs:{a}"
+  | .cond x c v => s!"cond:{showCtx x}:{c}:{if v then 1 else 0}"
+  | .create a => s!"create:{a}"
+  | .stop i => s!"stop:{i}"
+  | .recInit => "ri"
+  | .recd k => s!"r:{k}"
+  | .traj t => s!"traj:{t}"
+  | .recFinal => "rf"
+  | .sched o => "sched:" ++ ",".intercalate (o.map toString)
+  | .act t acts => s!"act:{t}:" ++ ",".intercalate (acts.map fun p =>
+      s!"{p.1}=" ++ (match p.2 with | some x => toString x | none => "-"))
+  | .sim t => s!"sim:{t}"
+  | .upd t => s!"upd:{t}"
+
+def showTerm : Term → String
+  | .scenarioComplete => "scenarioComplete"
+  | .terminatedByMonitor => "terminatedByMonitor"
+  | .simulationTerminationCondition => "simulationTerminationCondition"
+  | .timeLimit => "timeLimit"
+  | .terminatedByBehavior => "terminatedByBehavior"
+
+def showAbort : Abort → String
+  | .rejected => "rejected" | .stuck => "stuck" | .error => "error"
+
+def runJob (S : Sem) (j : Job) : String :=
+  let sched : Nat → Nat → List Nat := fun t n =>
+    match j.modes with
+    | [] => List.range n
+    | ms => ((ms.getD (t % ms.length) .id)).apply n
+  let r := simulate j.prog S j.cf j.fuel sched
+  let head := match r.abort, r.term with
+    | some a, _ => showAbort a
+    | none, some t => showTerm t
+    | none, none => "none"
+  s!"{head} {r.time} {r.trajLen} {r.actLen} | " ++ ";".intercalate (r.log.map showEv)
+
+def parseCtx : String → Option Ctx
+  | "co" => some .comp | "mo" => some .mon | "be" => some .beh | "tw" => some .termWhen | "ts" => some .termSim
+  | _ => none
+
+def parseNats (s : String) : Option (List Nat) :=
+  if s == "" then some [] else (s.splitOn ",").mapM String.toNat?
+
+def parseAct (s : String) : Option (Nat × Option Nat) :=
+  match s.splitOn "=" with
+  | [a, x] => do
+    let a ← a.toNat?
+    if x == "-" then pure (a, none) else do let v ← x.toNat?; pure (a, some v)
+  | _ => none
+
+def parseEv (s : String) : Option Ev :=
+  match s.splitOn ":" with
+  | ["q", i] => .q <$> i.toNat?
+  | ["c", i, t] => .c <$> i.toNat? <*> t.toNat?
+  | ["m", i, j, t] => .m <$> i.toNat? <*> j.toNat? <*> t.toNat?
+  | ["b", a, t] => .b <$> a.toNat? <*> t.toNat?
+  | ["bs", a] => .bstep <$> a.toNat?
+  | ["cond", x, c, v] => .cond <$> parseCtx x <*> c.toNat? <*> (if v == "1" then some true else if v == "0" then some false else none)
+  | ["create", a] => .create <$> a.toNat?
+  | ["stop", i] => .stop <$> i.toNat?
+  | ["ri"] => some .recInit
+  | ["r", k] => .recd <$> k.toNat?
+  | ["traj", t] => .traj <$> t.toNat?
+  | ["rf"] => some .recFinal
+  | ["sched", l] => .sched <$> parseNats l
+  | ["act", t, l] => do
+    let t ← t.toNat?
+    let acts ← (if l == "" then some [] else (l.splitOn ",").mapM parseAct)
+    pure (.act t acts)
+  | ["sim", t] => .sim <$> t.toNat?
+  | ["upd", t] => .upd <$> t.toNat?
+  | _ => none
+
+/-- run the order automaton of `SimSpec` on an event log -/
+def runSpec : DS → Nat → List String → String
+  | s, _, [] => s!"ok {if s.final then 1 else 0} {s.time}"
+  | s, k, e :: rest =>
+    match parseEv e with
+    | none => s!"unparsed {k} {e}"
+    | some ev =>
+      match s.step ev with
+      | some s' => runSpec s' (k + 1) rest
+      | none => s!"refused {k} {e}"
+
+/-- `thr` of a duration in seconds, both ways (float as CPython, exact quotient) -/
 def handle : List String → String
+  | "run" :: ts => match job.run ts with
+    | some (j, []) => runJob Scenic.Gen.sem j
+    | _ => "bad-op"
+  | "runsem" :: dyn :: mon :: ts => match job.run ts with   -- documented order, flags as given
+    | some (j, []) => runJob ⟨Phase.documented, dyn == "1", mon == "1"⟩ j
+    | _ => "bad-op"
+  | ["wf", evs] => runSpec .start 0 (evs.splitOn ";")
+  | ["sem"] => s!"{decide (Scenic.Gen.sem.order = Phase.documented)} {Scenic.Gen.sem.dynReqAsTemporal} {Scenic.Gen.sem.monTermPropagates}"
+  | ["secs", q, dt] => match parseRat q, parseRat dt with
+    | some q, some dt => s!"{secToStepsF (ratToFloat q) (ratToFloat dt)} {secToStepsQ q dt}"
+    | _, _ => "bad-op"
   | _ => "bad-op"
 
 end Driver.C12
